@@ -16,6 +16,9 @@ def run(rep, tier, seed, replay):
                 "recovered from the borrowed text; non-trivial = distinct (expression, path) pairs that match and have a participating capture")
     exprs = lib.inputs(rep, "C04", tier, seed, 1200, 15000, replay)
     if replay is None:
+        import gen as _gfc
+        exprs += [e for e in _gfc.flag_class_family() if e not in set(exprs)]
+    if replay is None:
         import gen as _gen
         exprs += [e for e in _gen.nested_tree_edge_family() + _gen.tree_position_family() + _gen.nested_middle_family() if e not in set(exprs)]
         # single-character classes (the escape idiom) next to other capturing tokens
